@@ -322,6 +322,28 @@ def owner_token_unique(ctx: Ctx, rid: str = "C19.R8") -> None:
                 in_init = f.name == "__init__" and f.cls is not None and isinstance(t.value, ast.Name) and t.value.id == "self"
                 org = ctx.slicer(f).origins(st.ast.value, st.id)
                 own_uuid = any(isinstance(c, ast.Call) and (dotted(c.func) or "").endswith("uuid4") for c in org["calls"])
+                if not own_uuid and isinstance(st.ast.value, ast.Attribute):
+                    # `self.lock_id = self.config.lock_id` with `self.config = S3LockConfig(...)` built in this constructor and the
+                    # record's field declared `field(default_factory=lambda: str(uuid.uuid4()))`: drawn per record = per instance
+                    # (a plain default `= str(uuid.uuid4())` is evaluated ONCE, at import)
+                    fld = st.ast.value.attr
+                    ctors = [c for c in org["calls"] if isinstance(c, ast.Call) and not any(k.arg == fld for k in c.keywords)]
+                    base_txt = norm_text(st.ast.value.value)
+                    ctors += [x.value for x in ast.walk(f.node) if isinstance(x, ast.Assign) and len(x.targets) == 1
+                              and norm_text(x.targets[0]) == base_txt and isinstance(x.value, ast.Call)
+                              and not any(k.arg == fld for k in x.value.keywords)]
+                    for c in ctors:
+                        ci = next((k_ for k_ in ctx.prog.classes.values() if k_.name == (dotted(c.func) or "").split(".")[-1] and k_.is_dataclass), None)
+                        if ci is None:
+                            continue
+                        decl = next((x for x in ci.node.body if isinstance(x, ast.AnnAssign) and isinstance(x.target, ast.Name) and x.target.id == fld), None)
+                        v_ = decl.value if decl is not None else None
+                        if isinstance(v_, ast.Call) and (dotted(v_.func) or "").split(".")[-1] == "field":
+                            fac = next((k.value for k in v_.keywords if k.arg == "default_factory"), None)
+                            if isinstance(fac, ast.Lambda) and any(isinstance(y, ast.Call) and (dotted(y.func) or "").endswith("uuid4") for y in ast.walk(fac.body)):
+                                own_uuid = True
+                            elif fac is not None and (dotted(fac) or "").endswith("uuid4"):
+                                own_uuid = True
                 ctx.ob(rid, f, "lock owner token is a per-instance uuid4", st, in_init and own_uuid,
                        "drawn by uuid4() in the provider's constructor" if in_init and own_uuid else
                        ("the token is not a uuid4() drawn in the provider's own constructor (host / pid / a process-wide memo): "
